@@ -81,7 +81,8 @@ void MetaOptimizer::doInit(const ParameterList& parameters)
       string pname = optDesc_->getParameterNames(i)[j];
       if (parameters.hasParameter(pname))
       {
-        optParameters_[i].addParameter(parameters.parameter(pname));
+        // Take the optimiser's own copy, to which the constraint policy has been applied:
+        optParameters_[i].addParameter(getParameters().parameter(pname));
       }
     }
     nbParameters_[i] = optParameters_[i].size();
